@@ -212,7 +212,9 @@ def count_delayed(ids, D, depth=0):
 
 def assignments(nd, K, rng):
     if nd == 0:
-        return [(1,)]
+        # no structure to vary: still several data contents (edge-value phases, compressed and not) - a single
+        # content can hide a difference behind a missing value
+        return [(1,), (1,), (1,)]
     allv = list(itertools.product(range(4), repeat=min(nd, 6)))
     if len(allv) <= K:
         return allv
